@@ -59,6 +59,19 @@ def _val(v):
         return {"num": str(n), "den": str(d), "float": n / d}
     if z3.is_algebraic_value(v):
         return {"float": float(v.approx(30).as_decimal(30).rstrip("?")), "algebraic": str(v)}
+    if z3.is_fp_value(v):
+        if v.isNaN():
+            return {"float": float("nan")}
+        if v.isInf():
+            return {"float": float("-inf") if v.isNegative() else float("inf")}
+        txt = str(v)                   # mantissa*(2**exponent) or a plain decimal
+        try:
+            if "*(2**" in txt:
+                m_, e_ = txt.split("*(2**")
+                return {"float": float(m_) * 2.0 ** int(e_.rstrip(")"))}
+            return {"float": float(txt)}
+        except Exception:  # noqa
+            return str(v)
     if z3.is_int_value(v):
         return v.as_long()
     if z3.is_true(v):
